@@ -291,6 +291,36 @@ def embedP : List (PVal × PVal) → List (Out × Out)
   | (k, v) :: r => (embed k, embed v) :: embedP r
 end
 
+/-! ## Classification of a value: attrs instance FIRST
+
+    Every site — `asdict`'s own branch chain for a field value, `_asdict_anything`, `astuple`'s branch chain and
+    its member test — asks `has(type(v))` (resolved through the MRO) *before* the `isinstance` tests for
+    list / tuple / set / frozenset and dict.  So an instance of an attrs class that also derives from a builtin
+    container (`@attr.s class Bag(list)`) is an attrs instance: `PVal.inst`; what it holds as a container plays
+    no part (the harness keeps it as harness-only `content` of the node and checks that it is left alone). -/
+
+/-- what the tests see of a Python value -/
+structure Looks where
+  hasAttrs : Bool     -- `has(type(v))`
+  isColl : Bool       -- `isinstance(v, (tuple, list, set, frozenset))`
+  isDict : Bool       -- `isinstance(v, dict)`
+  deriving DecidableEq, Repr, Inhabited
+
+inductive Branch where
+  | instance | collection | mapping | leaf
+  deriving DecidableEq, Repr, Inhabited
+
+/-- the branch taken, at every site -/
+def classify (l : Looks) : Branch :=
+  if l.hasAttrs then .instance else if l.isColl then .collection else if l.isDict then .mapping else .leaf
+
+/-- how a `PVal` (which is what `classify` made of the Python value when the case was encoded) looks -/
+def looksOf : PVal → Looks
+  | .atom _ => ⟨false, false, false⟩
+  | .inst _ _ _ => ⟨true, false, false⟩     -- possibly also a container: irrelevant, see `classify`
+  | .coll _ _ => ⟨false, true, false⟩
+  | .dict _ _ => ⟨false, false, true⟩
+
 /-! ## Filters (src/attr/filters.py) -/
 
 def tyOf : PVal → TyTag
